@@ -660,6 +660,10 @@ protected:
       Wt wt_sij = c + s_p.second;
       for (auto d_p : dest_dec) {
         vert_id de = d_p.first;
+        if (se == de) {
+          // se -> ii -> jj -> se is a cycle, not a relation: no self-loop
+          continue;
+        }
         Wt wt_sijd = wt_sij + d_p.second;
         if (g.lookup(se, de, w)) {
           if (w.get() <= wt_sijd) {
